@@ -66,7 +66,7 @@ def sibling(ctx, report, facts, config, rule="C05.SIBLING"):
     return dict((k, norm(v[1].shape)) for k, v in sk.items())
 
 
-def run(ctx, report):
+def _run_rules(ctx, report):
     per_config = {}
     for config in ctx.configs:
         facts = ctx.facts(config)
@@ -81,3 +81,10 @@ def run(ctx, report):
             for name, shape in sorted(sk.items()):
                 if ref and name in ref:
                     report.ob("C05.SIBLING", "cross-config/%s" % name, shape == ref[name], "skeleton in %s equals the default configuration's" % config, config=config)
+
+
+def run(ctx, report):
+    _run_rules(ctx, report)
+    from .. import shared as _S
+    for config in ctx.configs:
+        report.guard("C05.ENCAPSULATED", _S.encapsulated, ctx, report, "C05.ENCAPSULATED", ctx.facts(config), config, "C05")
